@@ -72,9 +72,10 @@ theorem trace_eq (a : Arch) (prog : List Bits) (s : VmState) (h : RtlState) (ps 
     program and for every port stimulus. -/
 theorem onlyDestRegs_sound (a : Arch) (prog : List Bits) (used : String → List Nat) (s : RtlState) (p : PortsIn)
     (hused : ∀ op k, k ∈ Rtl.destRegs a prog op → k ∈ used op)
+    (husedS : ∀ op k, k ∈ Rtl.srcRegs a prog op → k ∈ used (op ++ "/src"))
     (hws : a.wordSize = 0) (hlen : ∀ w ∈ prog, w.length = a.maxWord) (hpc : s.pc < prog.length) :
     Rtl.cycleOpt a used prog s p = Rtl.cycle a prog s p :=
-  onlyDestRegs_sound' a prog used s p hused hws hlen hpc
+  onlyDestRegs_sound' a prog used s p hused husedS hws hlen hpc
 
 /-! ### non-vacuity: a concrete machine and program satisfy every hypothesis, step after step -/
 
